@@ -25,15 +25,17 @@ LEVEL_TEXT = ("Theorems (Props/C03.v), any field with 1+1/=0: the banded L D L^T
               "equations hold exactly afterwards, an exact solution is a fixed point, only the six edges are "
               "written. Lifted through the four loops of the regenerated kernel: for EVERY nu and shape the "
               "point-wise smoother returns an exact solution unchanged and never writes a tangential boundary "
-              "value. For the three line smoothers (gauss_seidel_x/_y/_z; Proofs/GSLineX.v, GSLineCommon.v, GSLineY.v, "
+              "value; the whole point-wise smoother is LINEAR (hence affine) in (field, source) and after it the "
+              "six equations of the block relaxed last -- node (1,1,1) for odd nu, (nx-1,ny-1,nz-1) for even nu -- "
+              "hold exactly (Proofs/GSAffine.v). For the three line smoothers (gauss_seidel_x/_y/_z; Proofs/GSLineX.v, GSLineCommon.v, GSLineY.v, "
               "GSLineZ.v; stated for x, identically for y and z with the indices permuted): the three branches of "
               "blocks_to_amat as explicit stores, the layout of the assembled 11-diagonal system for EVERY nx>=2 "
               "(loop invariant), row-by-row consistency of that system with 'A e[x] = s on the line's 5nx-4 edges' "
               "(22 field identities: rows 0..4 x first/middle/next-to-last/last block) under PEC at the two x-ends "
               "of the line, the write-back, hence: line equations hold exactly afterwards, an exact solution is a "
               "fixed point of the whole kernel for every nu, and the kernel never writes a boundary edge.")
-LEVEL_NOTE = ("Partial: 'last block/line exact' and affinity at the level of the WHOLE sweep are not proved (block- and "
-              "line-level exactness are); they rest on the correspondence of the generated kernels "
+LEVEL_NOTE = ("Partial: for the LINE smoothers 'last line exact' and affinity at the level of the WHOLE sweep are not "
+              "proved (line-level exactness is; for the point smoother both are proved); they rest on the correspondence of the generated kernels "
               "with the compiled ones and on the searcher (manufactured solutions for all lr codes 0..7, nu 1..4). "
               "Non-vanishing pivots are a hypothesis (the code's own assumption). The evaluation step of the block "
               "proofs is re-checked by the kernel with the VM (vm_cast). Rounding not modelled.")
